@@ -124,9 +124,14 @@ def Tx.parse (b : Bytes) : Res Tx :=
           | .error e => .error e
           | .ok (lockTime, b6) => .ok (⟨version, lockTime, vin', vout⟩, b6)
 
-/-- the width-deciding half of `Tx.assert_valid`, plus the one shape `Tx.parse` cannot read back:
-    no input and exactly one output (its encoding `… 00 01 …` *is* the segwit marker; with
-    check_validity on, btclib refuses it earlier as "Missing inputs"). -/
+/-- the width-deciding half of `Tx.assert_valid` -/
+def Tx.StructValid (t : Tx) : Prop :=
+  t.version < 256 ^ 4 ∧ t.lockTime < 256 ^ 4
+    ∧ vinC.valid (t.vin.map TxIn.strip) ∧ voutC.valid t.vout
+    ∧ (∀ i ∈ t.vin, witness.valid i.witness)
+
+/-- `StructValid` and not the shape `Tx.parse` cannot read back (NOT a btclib rule: btclib serializes that
+    shape and then misreads it -- known finding `psbt.v0.noinputs.marker`) -/
 def Tx.Valid (t : Tx) : Prop :=
   t.version < 256 ^ 4 ∧ t.lockTime < 256 ^ 4
     ∧ vinC.valid (t.vin.map TxIn.strip) ∧ voutC.valid t.vout
